@@ -277,6 +277,11 @@ def check_model(model, init, acc, api, name, run_edits=True):
             if base[0][0] == 'err' and base[0][1].startswith('Unknown jump label'):
                 lab = re.search(r'"(.*)"', base[0][1]).group(1)
                 if lab not in {l for _, l in lf['unknown']}:
+                    if nested_dangling_jump(model['statements'], lab, 0):
+                        # finding F23: lint does not look into function statements nested inside a function body
+                        acc.known_finding('F23', f'{base[0][1]} raised inside a nested function statement; lint unknown set is {sorted(map(str, lf["unknown"]))}')
+                        acc.case(txt, True)
+                        return
                     acc.violation('runtime-unknown-label-not-predicted', f'{base[0][1]} but lint unknown set is {lf["unknown"]}', case)
                     return
                 acc.count('runtime_unknown_label_predicted')
@@ -304,6 +309,19 @@ def check_model(model, init, acc, api, name, run_edits=True):
     acc.case(txt, edits_run >= 1 or any(rf[k] for k in rf))
     if len(acc.samples) < 2 and edits_run >= 2:
         acc.sample({'name': name, 'warnings': w1[:6], 'edits_executed': edits_run})
+
+
+def nested_dangling_jump(stmts, lab, depth):
+    """Is there a function statement at nesting depth >= 2 (a function statement inside a function body) whose own statement list jumps to
+    `lab` without defining it?"""
+    for st in stmts:
+        if 'function' in st:
+            body = st['function']['statements']
+            if depth >= 1 and any('jump' in b and b['jump']['label'] == lab for b in body) and not any(b.get('label') == lab for b in body if 'label' in b):
+                return True
+            if nested_dangling_jump(body, lab, depth + 1):
+                return True
+    return False
 
 
 def inject_pointless(rnd, prog):
@@ -349,6 +367,12 @@ CALLEE_TEMPLATE = [
 def run_models(spec, acc, api):
     bare_script = api[0]
     base = spec['seed'] * 1000003 + spec['shard'] * 7919 + 103
+    if spec['shard'] == 0:
+        # directed witness of finding F23 (a dangling jump inside a function statement that is nested in a function body)
+        call = lambda name, *a: {'function': {'name': name, 'args': list(a)}}  # noqa: E731
+        witness = {'statements': [{'function': {'name': 'f2', 'statements': [{'function': {'name': 'f1', 'args': ['x'], 'statements': [{'jump': {'label': 'D'}}]}}, {'return': {'expr': {'number': 1.0}}}]}},
+                                  {'expr': {'name': 'n', 'expr': call('f2')}}, {'expr': {'name': 'm', 'expr': call('f1', {'variable': 'n'})}}]}
+        check_model(witness, {'n': 0, 'm': 0, 'c': 0}, acc, api, 'nested-dangling-jump-witness')
     for i in range(spec['n']):
         rnd = random.Random(base + i)
         if rnd.random() < 0.5:
